@@ -180,6 +180,35 @@ def run_case(case):
             one(src, case, std, keep, res)
             n += 1
         res["sample"] = {"kind": "random", "text": src[:200]}
+    elif case["kind"] == "stmt":
+        # every statement of a generated program on its own (inside a minimal wrapper): delete
+        # each token in turn / replace it by a few punctuation tokens (exhaustive per statement)
+        p = gen.gen_program(case["seed"], std=std, size=0.7)
+        seen = set()
+        # every statement of one program + a zoo of statements of every kind the generator knows
+        g = gen.G(random.Random(case["seed"] ^ 0x200), std=std, max_depth=2)
+        zoo = list(p.flat())
+        zoo += [g.format_stmt() for _ in range(6)] + [g.io_stmt() for _ in range(8)] + [g.type_decl()[0] for _ in range(8)]
+        zoo += [x for x in (g.spec_misc() for _ in range(12)) if isinstance(x, gen.St)]
+        zoo += [g.action() for _ in range(12)] + [g.use_stmt()[0] for _ in range(3)]
+        for st_ in zoo:
+            toks = st_.all_toks()
+            if len(toks) > 24:
+                continue
+            key0 = util.stmt_kind(st_.text())
+            for i in range(len(toks)):
+                for rep in ("", "*", "(", ")", ",", "=", ":"):
+                    t2 = toks[:i] + ([rep] if rep else []) + toks[i + 1:]
+                    txt = gen.join_natural(t2) if t2 else ""
+                    if (key0, txt) in seen:
+                        continue
+                    seen.add((key0, txt))
+                    wrap = "subroutine s_w\n" + txt + "\nend subroutine s_w\n"
+                    if st_.role == "open" and st_.cons in ("subroutine", "function", "program", "module", "submodule", "blockdata"):
+                        wrap = txt + "\nend\n"
+                    one(wrap, case, std, False, res)
+                    n += 1
+        res["sample"] = {"kind": "stmt", "seed": case["seed"], "mutants": n}
     elif case["kind"] == "scale":
         # structured inputs of moderate size: must come back within the time bound
         from fv.props import c20
@@ -233,6 +262,8 @@ def cases(tier, seed):
         out.append({"kind": "mutant", "seed": s, "n": 25, "std": "f2008" if i % 2 else "f2003", "keep": i % 4 == 3, "_timeout": 600})
     for i, s in enumerate(util.seeds(seed, max(4, nb // 4), 66)):
         out.append({"kind": "random", "seed": s, "n": 60, "std": "f2008" if i % 2 else "f2003", "keep": i % 3 == 0, "_timeout": 600})
+    for i, s in enumerate(util.seeds(seed, util.tier_n(tier, 16, 160), 67)):
+        out.append({"kind": "stmt", "seed": s, "std": "f2008" if i % 3 else "f2003", "_timeout": 1200})
     return out
 
 
